@@ -738,6 +738,19 @@ impl Store {
         Ok(())
     }
 
+    /// Major compaction of every partition, run synchronously on the calling thread (all
+    /// segments of a partition are merged into one, shadowed versions and tombstones dropped).
+    pub fn verif_compact(&self) -> Result<(), crate::error::Error> {
+        let seqno = self.keyspace.instant();
+        for partition in [&self.frame_partition, &self.idx_topic, &self.idx_context] {
+            if let fjall::AnyTree::Standard(tree) = &partition.tree {
+                tree.major_compact(64 * 1024 * 1024, seqno)
+                    .map_err(|e| format!("major compaction: {e:?}"))?;
+            }
+        }
+        Ok(())
+    }
+
     pub fn verif_segment_count(&self) -> usize {
         self.frame_partition.segment_count()
             + self.idx_topic.segment_count()
